@@ -301,7 +301,15 @@ def rule_c(ctx):
     if st is None:
         raise AnalysisError('anchor vanished: PrefetchDataset._single_thread_prefetch')
     wraps = [n for n in A.walk_local(st.node) if isinstance(n, ast.Call) and A.dotted(n.func) == 'CatchExceptionDataset']
-    ok = len(wraps) == 1 and any(kw.arg == 'exceptions' for kw in wraps[0].keywords) and A.is_self_attr(wraps[0].args[0], INPUT_ATTR) \
+    def is_the_input(e):
+        if A.is_self_attr(e, INPUT_ATTR):
+            return True
+        if isinstance(e, ast.Name):
+            prior = [n.value for n in A.walk_local(st.node) if isinstance(n, ast.Assign) and len(n.targets) == 1
+                     and A.is_name(n.targets[0], e.id) and n.lineno < e.lineno and not any(x is e for x in ast.walk(n))]
+            return bool(prior) and all(A.is_self_attr(v, INPUT_ATTR) for v in prior)
+        return False
+    ok = len(wraps) == 1 and any(kw.arg == 'exceptions' for kw in wraps[0].keywords) and bool(wraps[0].args) and is_the_input(wraps[0].args[0]) \
         and any(A.is_self_attr(A.strip_not(t)[0], 'catch_filter_exception') and (b != A.strip_not(t)[1])
                 for t, b in flow.guards_of(wraps[0], st.node))
     rep.ob('C1', 'core.PrefetchDataset._single_thread_prefetch::wraps-input-in-catch-iff-configured', ok, st.node,
